@@ -40,6 +40,7 @@ type inv struct {
 	Vals    map[int]int     `json:"vals,omitempty"` // value returned per key
 	Caller  int             `json:"caller"`
 	Trigger int64           `json:"trigger"` // call time of the API call that passed this loader
+	ID      int             `json:"id"`
 }
 
 type lcall struct {
@@ -53,6 +54,7 @@ type lcall struct {
 	Err   string `json:"err,omitempty"`
 	Panic bool   `json:"panic,omitempty"`
 	Msgs  int    `json:"msgs"`
+	ErrID int    `json:"err_id,omitempty"` // id of the failed invocation whose result this call returned
 	OwnPanic bool `json:"own_panic,omitempty"`
 	NilChan  bool `json:"nil_chan,omitempty"`
 }
@@ -107,6 +109,7 @@ func (l burstLoader) run(bulk, reload bool, keys []int) (map[int]int, error) {
 	r := core.NewRng(b.rnd())
 	in.Out = r.Pick(b.cfg.OutW)
 	b.mu.Lock()
+	in.ID = len(b.invs) + 1
 	b.invs = append(b.invs, in)
 	b.mu.Unlock()
 	if b.cfg.HoldUs > 0 {
@@ -139,14 +142,14 @@ func (l burstLoader) run(bulk, reload bool, keys []int) (map[int]int, error) {
 	case loValue:
 		return res, nil
 	case loError:
-		return nil, errLoaderFailed
+		return nil, fmt.Errorf("%w #%d#", errLoaderFailed, in.ID)
 	case loNotFound:
-		return nil, otter.ErrNotFound
+		return nil, fmt.Errorf("not found #%d#: %w", in.ID, otter.ErrNotFound)
 	default:
 		if l.own != nil {
 			l.own.Store(1)
 		}
-		panic("loader panic (harness)")
+		panic(fmt.Sprintf("loader panic (harness) #%d#", in.ID))
 	}
 }
 
@@ -166,6 +169,25 @@ func (l burstLoader) BulkLoad(ctx context.Context, keys []int) (map[int]int, err
 
 func (l burstLoader) BulkReload(ctx context.Context, keys, olds []int) (map[int]int, error) {
 	return l.run(true, true, keys)
+}
+
+// errID extracts the id of the failed invocation an error stems from (0 if none).
+func errID(err error) int {
+	if err == nil {
+		return 0
+	}
+	s := err.Error()
+	i := strings.Index(s, " #")
+	if i < 0 {
+		return 0
+	}
+	j := strings.Index(s[i+2:], "#")
+	if j < 0 {
+		return 0
+	}
+	n := 0
+	fmt.Sscanf(s[i+2:i+2+j], "%d", &n)
+	return n
 }
 
 func errKind(err error) string {
@@ -249,7 +271,7 @@ func (b *burst) worker(w int, rng *core.Rng) {
 	cfg := &b.cfg
 	vctr := 0
 	for round := 0; round < cfg.Rounds; round++ {
-		kindW := []int{8, 5, 3, 3, 0, 0}
+		kindW := []int{8, 5, 3, 3, 0, 0, 2, 2}
 		if cfg.Mixed {
 			kindW[4], kindW[5] = 3, 3
 		}
@@ -276,7 +298,15 @@ func (b *burst) worker(w int, rng *core.Rng) {
 				lc.Call = b.now()
 				v, err := b.cache.Get(ctx, keys[0], ld)
 				lc.Ret = b.now()
-				lc.Val, lc.Err = v, errKind(err)
+				lc.Val, lc.Err, lc.ErrID = v, errKind(err), errID(err)
+				if err != nil && rng.Chance(2, 3) {
+					// a failed load leaves nothing behind: retry at once (recorded as its own call)
+					b.record(lc)
+					lc = lcall{W: w, Kind: "Get", Keys: keys[:1], Call: b.now()}
+					v, err = b.cache.Get(ctx, keys[0], ld)
+					lc.Ret = b.now()
+					lc.Val, lc.Err, lc.ErrID = v, errKind(err), errID(err)
+				}
 			case 1:
 				lc.Kind, lc.Keys = "BulkGet", keys
 				lc.Call = b.now()
@@ -301,10 +331,21 @@ func (b *burst) worker(w int, rng *core.Rng) {
 				lc.Call = b.now()
 				b.cache.Set(keys[0], lc.Val)
 				lc.Ret = b.now()
-			default:
+			case 5:
 				lc.Kind, lc.Keys = "Invalidate", keys[:1]
 				lc.Call = b.now()
 				b.cache.Invalidate(keys[0])
+				lc.Ret = b.now()
+			case 6:
+				// not a write: a cancelled computation must leave in-flight loads alone
+				lc.Kind, lc.Keys = "Compute(cancel)", keys[:1]
+				lc.Call = b.now()
+				b.cache.Compute(keys[0], func(old int, found bool) (int, otter.ComputeOp) { return 0, otter.CancelOp })
+				lc.Ret = b.now()
+			default:
+				lc.Kind, lc.Keys = "ComputeIfAbsent(cancel)", keys[:1]
+				lc.Call = b.now()
+				b.cache.ComputeIfAbsent(keys[0], func() (int, bool) { return 0, true })
 				lc.Ret = b.now()
 			}
 		}()
@@ -513,6 +554,24 @@ func (b *burst) judgeBurst() (violation string, overlaps int, waiters int) {
 			}
 		}
 	}
+	// (3) a failed load leaves no record behind: once any call has returned the result of a failed
+	// invocation, a Get called afterwards must not be handed that same result again
+	type idKey struct{ id, key int }
+	firstRet := map[idKey]int64{} // a bulk invocation finishes the calls of its keys one after the other
+	for _, c := range b.calls {
+		if c.ErrID != 0 && c.Kind == "Get" {
+			ik := idKey{c.ErrID, c.Keys[0]}
+			if t, ok := firstRet[ik]; !ok || c.Ret < t {
+				firstRet[ik] = c.Ret
+			}
+		}
+	}
+	for _, c := range b.calls {
+		if c.Kind == "Get" && c.ErrID != 0 && c.Call > firstRet[idKey{c.ErrID, c.Keys[0]}] {
+			return fmt.Sprintf("Get(%d) called at %d returned the %s result of loader invocation #%d, which had already been handed to a call for that key that returned at %d: the finished load was still registered",
+				c.Keys[0], c.Call, c.Err, c.ErrID, firstRet[idKey{c.ErrID, c.Keys[0]}]), overlaps, waiters
+		}
+	}
 	// (4) nothing left in flight
 	if n := b.cache.VerifCalls(); n != 0 {
 		return fmt.Sprintf("%d in-flight load records are left after every call returned and the executor is idle", n), overlaps, waiters
@@ -570,9 +629,9 @@ func genBurst(seed uint64, variant string, i int) burstCfg {
 // RunC08 runs the single-flight bursts of one shard.
 func RunC08(col *core.Collector, tier, variant string, seed uint64, shard, nshards int, replayDir, outBase string) {
 	col.Note("rule: a burst = G goroutines issuing Get/BulkGet/Refresh/BulkRefresh (mixed bursts also Set/Invalidate, optionally a tiny maximum) over overlapping key sets with a harness loader that stays inside for a PRNG time and ends with value/error/ErrNotFound/panic or partial/extra bulk maps; non-trivial = at least one call that waited for another call's load; distinct = hash of (calls, invocations)")
-	n := 800
+	n := 3000
 	if tier == "thorough" {
-		n = 30000
+		n = 80000
 	}
 	if variant != "plain" {
 		n /= 3
